@@ -386,52 +386,82 @@ var peakHeap uint64    // largest HeapAlloc the watchdog has seen
 var curOp atomic.Value // the op line being executed (string)
 var curPath string     // where to leave it if the watchdog aborts (vlib reads <ops>.cur)
 
-func leaveCur() {
+// curOpText renders the call the process is in (a string, or a closure evaluated only now).
+func curOpText() string {
+	if f, ok := curOp.Load().(func() string); ok && f != nil {
+		return f()
+	}
+	return ""
+}
+
+// leaveCur leaves the op the process died in where vlib (correspondence) looks for it; a death that
+// is not attributable to one call is marked so that it is never taken for a failing input.
+func leaveCur(attributable bool) {
 	if curPath != "" {
-		if s, ok := curOp.Load().(string); ok {
-			_ = os.WriteFile(curPath, []byte(s+"\n"), 0644)
+		s := curOpText()
+		if !attributable {
+			s = "(process-heap) " + s
 		}
+		_ = os.WriteFile(curPath, []byte(s+"\n"), 0644)
 	}
 }
+
+var opSeq int64 // incremented at the start of every call into the package
 
 // startWatchdog aborts the process (exit 3) in three distinguishable situations:
 //
 //	WATCHDOG call-time …   ONE call into the package has been running longer than maxOp
-//	WATCHDOG call-heap …   the heap crossed maxHeap while ONE call has been running for over 2 s
-//	                       (both: the property-level "never returns / allocates without bound")
-//	WATCHDOG process-heap  the process as a whole grew past maxHeap with no long-running call:
+//	WATCHDOG call-heap …   the heap grew by more than 1 GiB (or past maxHeap) WHILE ONE call was running:
+//	                       growth is measured from the first sample taken during that call
+//	                       (both: the property-level "never returns / allocates without bound";
+//	                       the full op follows on a line `WATCHDOG-OP <op>`)
+//	WATCHDOG process-heap  the process as a whole grew past maxHeap across many calls:
 //	                       that is the check machinery's own memory use, never a property finding
 func startWatchdog(maxOp time.Duration, maxHeap uint64) {
 	go func() {
 		var ms runtime.MemStats
+		var lastSeq int64 = -1
+		var baseHeap uint64
+		die := func(kind string, attributable bool, running time.Duration) {
+			op := curOpText()
+			short := op
+			if len(short) > 300 {
+				short = short[:300] + "…"
+			}
+			if attributable {
+				fmt.Printf("WATCHDOG %s heap=%d grown=%d running=%s op=%s\n", kind, ms.HeapAlloc, ms.HeapAlloc-baseHeap, running.Round(time.Millisecond), short)
+				fmt.Printf("WATCHDOG-OP %s\n", op)
+			} else {
+				fmt.Printf("WATCHDOG process-heap heap=%d (spread over many calls: the harness/searcher itself grew)\n", ms.HeapAlloc)
+			}
+			leaveCur(attributable)
+			os.Exit(3)
+		}
 		for {
-			time.Sleep(100 * time.Millisecond)
+			time.Sleep(50 * time.Millisecond)
 			st := atomic.LoadInt64(&opStart)
+			seq := atomic.LoadInt64(&opSeq)
 			runtime.ReadMemStats(&ms)
 			if ms.HeapAlloc > atomic.LoadUint64(&peakHeap) {
 				atomic.StoreUint64(&peakHeap, ms.HeapAlloc)
 			}
-			op, _ := curOp.Load().(string)
-			if len(op) > 400 {
-				op = op[:400]
+			if seq != lastSeq || ms.HeapAlloc < baseHeap {
+				lastSeq, baseHeap = seq, ms.HeapAlloc
 			}
 			running := time.Duration(0)
 			if st != 0 {
 				running = time.Since(time.Unix(0, st))
 			}
+			grown := ms.HeapAlloc - baseHeap
+			inCallNow := st != 0 && atomic.LoadInt64(&opSeq) == seq
+			if inCallNow && grown > 1<<30 {
+				die("call-heap", true, running)
+			}
 			if ms.HeapAlloc > maxHeap {
-				if st != 0 && running > 2*time.Second {
-					fmt.Printf("WATCHDOG call-heap heap=%d running=%s op=%s\n", ms.HeapAlloc, running.Round(time.Millisecond), op)
-				} else {
-					fmt.Printf("WATCHDOG process-heap heap=%d (no single call running; the harness/searcher itself grew)\n", ms.HeapAlloc)
-				}
-				leaveCur()
-				os.Exit(3)
+				die("call-heap", inCallNow && (running > 2*time.Second || grown > maxHeap/4), running)
 			}
 			if st != 0 && running > maxOp {
-				fmt.Printf("WATCHDOG call-time running=%s heap=%d op=%s\n", running.Round(time.Millisecond), ms.HeapAlloc, op)
-				leaveCur()
-				os.Exit(3)
+				die("call-time", true, running)
 			}
 		}
 	}()
@@ -439,7 +469,16 @@ func startWatchdog(maxOp time.Duration, maxHeap uint64) {
 
 // inCall brackets one call into the package for the watchdog (search mode).
 func inCall(op string) func() {
+	curOp.Store(func() string { return op })
+	atomic.AddInt64(&opSeq, 1)
+	atomic.StoreInt64(&opStart, time.Now().UnixNano())
+	return func() { atomic.StoreInt64(&opStart, 0) }
+}
+
+// inCallF is inCall with the op text built only if the watchdog needs it.
+func inCallF(op func() string) func() {
 	curOp.Store(op)
+	atomic.AddInt64(&opSeq, 1)
 	atomic.StoreInt64(&opStart, time.Now().UnixNano())
 	return func() { atomic.StoreInt64(&opStart, 0) }
 }
@@ -454,10 +493,9 @@ func (r *runner) do(op string) string {
 	// hx.Out.Do would rewrite the .cur file for every op (3 syscalls each, ~150 s per
 	// run); the watchdog leaves the current op there instead when it has to abort.
 	r.n++
-	if r.n%64 == 0 {
-		atomic.StoreInt64(&opStart, time.Now().UnixNano())
-	}
-	curOp.Store(op)
+	atomic.AddInt64(&opSeq, 1)
+	atomic.StoreInt64(&opStart, time.Now().UnixNano())
+	curOp.Store(func() string { return op })
 	res := hx.Guard(func() string { return execOp(op) })
 	r.out.Emit(op, res)
 	w := strings.Fields(op)
